@@ -30,13 +30,21 @@ Obs == ndJsonDeserialize(ObsFile)
 RefV(e, i)     == Valid(e.unit.defs, e.unit.schema, e.unit.docs[i], {}, "decl", NoLim)
 ImplV(e, i, D) == Valid(e.unit.defs, e.unit.schema, e.unit.docs[i], D, "decl", NoLim)
 ObsV(r)        == IF r.err \/ r.panic THEN Rej ELSE Acc
-Explains(e, i) == {x \in Devs : ImplV(e, i, Devs \ {x}) # ImplV(e, i, Devs)}
+\* Which open deviations account for a disagreement that the model with all of Devs predicts: those
+\* that are necessary (removing x changes the prediction) or sufficient (x alone departs from the
+\* reference); if the disagreement is over-determined or needs a combination, every deviation that
+\* changes the prediction in some context.
+Explains(e, i) ==
+  LET ns == {x \in Devs : \/ ImplV(e, i, Devs \ {x}) # ImplV(e, i, Devs)
+                           \/ ImplV(e, i, {x}) # RefV(e, i)}
+  IN IF ns # {} THEN ns
+     ELSE {x \in Devs : \E S \in SUBSET (Devs \ {x}) : ImplV(e, i, S \cup {x}) # ImplV(e, i, S)}
 
 Class(e, i) ==
   LET ref == RefV(e, i)  o == ObsV(e.res[i])  impl == ImplV(e, i, Devs) IN
   IF ref = Un THEN "un"
   ELSE IF o = ref THEN (IF impl = o THEN "ok" ELSE "drift")
-  ELSE IF o = impl /\ Explains(e, i) # {} THEN "known"
+  ELSE IF o = impl THEN "known"      \* impl # ref here, and Valid(.., {}) = ref: Devs accounts for it
   ELSE "violation"
 
 Report(n, e, i, c) ==
